@@ -325,6 +325,7 @@ RULES = [
     Rule('C20.L1', 'operation DAG of each error-free transformation equals the published algorithm', l1_operation_dags, 22, 'L'),
     Rule('C20.L2', 'exact parts are computed under REAL (ideal_*, ldexp)', l2_exact_parts, 5, 'L'),
     Rule('C20.L3', 'context-introspecting primitives are not called under a literal INTEGER/REAL scope', l3_introspection_scope, 30, 'L'),
+    Rule('C20.P2', 'the exact rounding split / modf / frexp return through refuses only when digits would be lost (= C01.P3, RealFloat._round_at)', lambda ctx: __import__('sa.props.c01', fromlist=['p3_inexact']).p3_inexact(ctx), 12, 'P'),
     Rule('C20.L4', 'the exact engine answers add / sub / mul / fma / neg for every operand (what the ideal variants evaluate under REAL)', l4_exact_engine_answers, 5, 'L'),
     Rule('C20.P1', 'split / modf / frexp return only exactly rounded parts', p1_exact_returns, 20, 'P'),
 ]
@@ -332,6 +333,9 @@ RULES = [
 from ..selftest import Mutant  # noqa: E402
 
 MUTANTS = [
+    Mutant('exact-rounding-refused-by-stored-width', 'fpy2/number/number/reals.py', "            kept = RealFloat(s=self._s, exp=self._exp, c=self._c)\n        else:\n            # normal path: need to split the value",
+           "            kept = RealFloat(s=self._s, exp=self._exp, c=self._c)\n        elif exact and p is not None and self.p > p:\n            raise ValueError(f'rounding off digits: self={self}, n={n}')\n        else:\n            # normal path: need to split the value", 'C20.P2',
+           'seeded change C20e: modf(Float.from_float(1.5), ctx=FP32) raises'),
     Mutant('fast-2sum-refuses-a-zero-first-operand', EFT, "    assert core.isnar(a) or core.isnar(b) or a == 0 or abs(a) >= abs(b)", "    assert core.isnar(a) or core.isnar(b) or abs(a) >= abs(b)", 'C20.L1',
            'finding F87 before its repair: classic_2fma raises AssertionError on ordinary binary64 triples'),
     Mutant('exact-sum-declines-distant-operands', 'fpy2/number/engine/real.py', "                case Float(), Float():\n                    r = x.as_real() + y.as_real()\n                    return Float(x=r, ctx=REAL)",
